@@ -366,7 +366,7 @@ func newSettledEv(fn *ssa.Function, name string, isCall func(*ssa.Call) bool) *s
 func (s *settledEv) Name() string { return s.okEv.name + " not failed/untested" }
 func (s *settledEv) Instr(st uint8, ins ssa.Instruction) uint8 {
 	if c, ok := ins.(*ssa.Call); ok && s.isCall(c) {
-		return st | bPEND
+		return (st | bPEND) &^ bFAIL
 	}
 	return st
 }
@@ -375,17 +375,14 @@ func (s *settledEv) Edge(st uint8, from *ssa.BasicBlock, succ int) uint8 {
 		return st
 	}
 	if iff, ok := from.Instrs[len(from.Instrs)-1].(*ssa.If); ok {
-		cond, pos := ifCond(iff, succ == 0)
-		if b, ok := cond.(*ssa.BinOp); ok && (b.Op == token.EQL || b.Op == token.NEQ) {
-			var tested ssa.Value
-			if isNilConst(b.Y) {
-				tested = b.X
-			} else if isNilConst(b.X) {
-				tested = b.Y
-			}
-			if tested != nil && s.carriers[tested] && (b.Op == token.EQL) == pos {
+		if tested, isNil, ok := nilTest(iff, succ == 0); ok && s.carriers[tested] {
+			if isNil {
+				if s.sameCallFailed(st, tested) {
+					return stInfeasible // this very error was already found non-nil on this path
+				}
 				return st &^ bPEND
 			}
+			st |= bFAIL
 		}
 	}
 	return st
